@@ -40,6 +40,32 @@ def unknown_library_api(ctx):
             nm = npath(erase_generics(fn.get("path") or ""))
             if not any(nm == k or nm.startswith(k) for k in KNOWN_API):
                 unknown.add(nm)
+    # the same when the template hands its phases to closures of `Result::and_then` (one expression per impl): the reader
+    # follows the function's own control flow, not a chain of closures that each hold a phase
+    idx = {b.path: b for b in cat.bodies}
+    for b in cat.bodies:
+        if not (b.impl_trait and npath(b.impl_trait) == "Deserr") or b.root != b.path:
+            continue
+        for blk in b.blocks:
+            tm = blk["term"]
+            if tm["k"] != "call" or tm["func"].get("k") != "const" or "fn" not in tm["func"]:
+                continue
+            fn = tm["func"]["fn"]
+            if fn.get("name") != "and_then" or not (fn.get("path") or "").startswith("std::result::Result"):
+                continue
+            # a closure given to it that deserialises / reports / iterates
+            for blk2 in b.blocks:
+                for st in blk2["stmts"]:
+                    if st["k"] == "assign" and st["rv"]["k"] == "agg" and st["rv"].get("ak") == "closure":
+                        cb = idx.get(st["rv"].get("path"))
+                        if cb is None:
+                            continue
+                        for cblk in cb.blocks:
+                            ct = cblk["term"]
+                            if ct["k"] == "call" and ct["func"].get("k") == "const" and "fn" in ct["func"]:
+                                cn = ct["func"]["fn"]
+                                if cn.get("name") in ("deserialize_from_value", "next", "into_iter", "remove") and ("Deserr" in (cn.get("full") or "") or "deserr" == cn.get("krate") or "Iterator" in (cn.get("full") or "")):
+                                    unknown.add("Result::and_then(closure holding a phase of the template)")
     return sorted(unknown)
 
 
